@@ -33,10 +33,14 @@ Fresh(run) == [c |-> run,
                stopped |-> [k \in 1..run.nkeys |-> -1],       \* when the key was stopped (-1: not stopped)
                saved |-> [k \in 1..run.nkeys |-> [kept |-> FALSE, since |-> 0, last |-> -1]],  \* what a stop replaced
                last |-> [k \in 1..run.nkeys |-> -1],          \* instant of the last complete advertisement
+               lastLine |-> [k \in 1..run.nkeys |-> 0],       \* trace line of its last record
+               mergedLine |-> [k \in 1..run.nkeys |-> 0],     \* trace line at which the key's scheduled prefix was last replaced by a shorter one
+               batchLine |-> [k \in 1..run.nkeys |-> 0],
                batchTs |-> -1, batch |-> [k \in 1..run.nkeys |-> {}], failed |-> {},
                gaveup |-> {},   \* keys under a prefix whose exploration the library ended early in the current instant
                online |-> TRUE, onlineSince |-> 0, restartAt |-> -1,
-               disturbed |-> FALSE,     \* an outage or a restart has happened in this run
+               outaged |-> FALSE, restarted |-> FALSE,     \* an outage / a restart has happened in this run
+               weak |-> {},    \* keys that are only owed their regular slot (handed over or left unadvertised while the node was offline)
                failing |-> FALSE, healSince |-> 0,   \* provider records cannot be delivered / when that ended
                onceLast |-> [k \in 1..run.nkeys |-> -1],   \* when a provide-once was the latest call for the key (-1: it is not)
                viol |-> {}]
@@ -55,6 +59,7 @@ CloseBatch(st) ==
   [st EXCEPT !.batchTs = -1, !.batch = [k \in 1..st.c.nkeys |-> {}], !.failed = {},
              !.gaveup = {},
              !.last = [k \in 1..st.c.nkeys |-> IF k \in Done(st) THEN st.batchTs ELSE @[k]],
+             !.lastLine = [k \in 1..st.c.nkeys |-> IF k \in Done(st) THEN st.batchLine[k] ELSE @[k]],
              !.once = @ \ Done(st),
              \* The library ends the exploration of a prefix after two closest-peers lookups in a row without a new
              \* peer (it says so through the verif hook, with the prefix); wrong recipients of the keys under such a
@@ -70,7 +75,7 @@ Quiet == IF s.batchTs # -1 THEN CloseBatch(s) ELSE s
 Send ==
   /\ Is("Send")
   /\ LET st == At(Ev.ts) IN
-     Step([st EXCEPT !.batchTs = Ev.ts, !.batch[Ev.k] = @ \cup {Ev.p},
+     Step([st EXCEPT !.batchTs = Ev.ts, !.batch[Ev.k] = @ \cup {Ev.p}, !.batchLine[Ev.k] = l,
         !.viol = @ \cup Flag(Ev.k \in 1..st.c.nkeys, "x_unknown_key_advertised")
                    \cup Flag(Ev.typ = "ADD_PROVIDER" /\ Ev.addrsok, "a_not_advertised_with_the_current_addresses")
                    \* a stopped key is not advertised in later cycles
@@ -80,6 +85,13 @@ Send ==
 Route == /\ Is("Route") /\ LET st == At(Ev.ts) IN Step([st EXCEPT !.batchTs = Ev.ts])
 \* the library ended the exploration of a prefix early (hook point explore:gaveup); keys: the keys under it
 GaveUp == /\ Is("GaveUp") /\ LET st == At(Ev.ts) IN Step([st EXCEPT !.batchTs = Ev.ts, !.gaveup = @ \cup Range(Ev.keys)])
+\* A prefix that was not just reprovided enters the schedule (hook point schedule:subsume; keys: the keys under
+\* it): longer prefixes under it lose their slot.  Kept keys under it that were advertised before are the ones a
+\* lost slot can delay (known finding).
+Merged == /\ Is("Merged")
+          /\ LET st == At(Ev.ts) IN
+             Step([st EXCEPT !.batchTs = Ev.ts,
+                             !.mergedLine = [k \in 1..st.c.nkeys |-> IF k \in Range(Ev.keys) /\ k \in st.kept /\ (st.last[k] # -1 \/ st.batch[k] # {}) THEN l ELSE @[k]]])
 SendFail == /\ Is("SendFail") /\ LET st == At(Ev.ts) IN Step([st EXCEPT !.batchTs = Ev.ts, !.failed = @ \cup {Ev.k}])
 
 \* Behind the buffered wrapper a start that follows a stop of the same key in the same batch cancels the stop
@@ -108,13 +120,22 @@ Stop == /\ Is("Stop")
                            !.saved = [k \in 1..st.c.nkeys |-> IF k \in Range(Ev.keys) THEN [kept |-> k \in st.kept, since |-> st.since[k], last |-> st.last[k]] ELSE @[k]],
                            !.stopped = [k \in 1..st.c.nkeys |-> IF k \in Range(Ev.keys) THEN Ev.ts ELSE @[k]]])
 Swarm == /\ Is("Swarm") /\ LET st == Quiet IN Step([st EXCEPT !.nearest = Ev.nearest])
-Offline == /\ Is("Offline") /\ LET st == Quiet IN Step([st EXCEPT !.online = FALSE, !.disturbed = TRUE])
-Online == /\ Is("Online") /\ LET st == Quiet IN Step([st EXCEPT !.online = TRUE, !.onlineSince = Ev.ts])
+Offline == /\ Is("Offline") /\ LET st == Quiet IN Step([st EXCEPT !.online = FALSE, !.outaged = TRUE])
+\* Connectivity returns; state is what the provider reported just before.  After more than the offline delay the
+\* provider has declared itself offline and emptied its provide queue: provide-once requests that were still
+\* waiting are gone, kept keys that were still waiting are advertised at their regular slot.
+Online == /\ Is("Online")
+          /\ LET st == Quiet
+                 off == Ev.state = "offline" IN
+             Step([st EXCEPT !.online = TRUE, !.onlineSince = Ev.ts,
+                             !.once = IF off THEN {} ELSE @,
+                             !.onceLast = IF off THEN [k \in 1..st.c.nkeys |-> -1] ELSE @,
+                             !.weak = IF off THEN @ \cup {k \in st.kept : st.last[k] < st.since[k]} ELSE @])
 FailSend == /\ Is("FailSend") /\ LET st == Quiet IN Step([st EXCEPT !.failing = TRUE])
 HealSend == /\ Is("HealSend") /\ LET st == Quiet IN Step([st EXCEPT !.failing = FALSE, !.healSince = Ev.ts])
 \* The property promises that work queued at Close is resumed after a restart; it does not promise reprovide
 \* deadlines across a restart, so the deadline clock of every key starts again at the restart.
-Restart == /\ Is("Restart") /\ LET st == Quiet IN Step([st EXCEPT !.onlineSince = IF st.online THEN Ev.ts ELSE @, !.once = {}, !.restartAt = Ev.ts, !.disturbed = TRUE])
+Restart == /\ Is("Restart") /\ LET st == Quiet IN Step([st EXCEPT !.onlineSince = IF st.online THEN Ev.ts ELSE @, !.once = {}, !.restartAt = Ev.ts, !.restarted = TRUE])
 
 \* Quiescent: what is due has been done.  The timing clauses are decided for steady runs only (the provider
 \* used directly, no outage and no restart so far): what exactly is owed after an outage, after a restart and
@@ -122,29 +143,43 @@ Restart == /\ Is("Restart") /\ LET st == Quiet IN Step([st EXCEPT !.onlineSince 
 Settle ==
   /\ Is("Settle")
   /\ LET st == Quiet
-         steady == ~st.c.buffered /\ ~st.disturbed /\ st.online /\ ~st.failing
-         \* (records that could not be delivered are sent again once delivery works; the node retries every 5 minutes)
-         due(k) == Max(st.since[k], st.healSince) + Grace <= Ev.ts
+         steady == ~st.c.buffered /\ ~st.restarted /\ st.online /\ ~st.failing
+         \* (records that could not be delivered are sent again once delivery works; the node retries every 5 minutes;
+         \* after an outage the node is given the same time from the moment connectivity returns)
+         from(k) == Max(Max(st.since[k], st.healSince), st.onlineSince)
+         due(k) == from(k) + Grace + (IF k \in st.weak THEN st.c.interval + st.c.maxdelay ELSE 0) <= Ev.ts
          bound == st.c.interval + st.c.maxdelay + 60
          gap(k) == Ev.ts - st.last[k]
+         \* the key's scheduled prefix was replaced by a shorter one after its last advertisement
+         shifted(k) == st.mergedLine[k] > st.lastLine[k]
      IN Step([st EXCEPT !.viol = @
           \* every key handed over has been advertised since
           \cup Flag(steady => \A k \in st.kept \cup st.once : due(k) => st.last[k] >= st.since[k], "b_key_not_advertised")
           \* and is re-advertised within interval + allowed delay; when regions are merged into a wider prefix the
           \* library reschedules them a cycle later (known finding), but never later than that
-          \cup Flag(steady => \A k \in st.kept : (due(k) /\ st.last[k] # -1) => (gap(k) <= bound \/ Ev.ts - st.healSince < bound), "b_key_not_readvertised_in_time")
-          \cup Flag(steady => \A k \in st.kept : (due(k) /\ st.last[k] # -1) => (gap(k) <= bound + st.c.interval \/ Ev.ts - st.healSince < bound + st.c.interval),
-                    "b_key_not_readvertised_within_two_intervals")
+          \cup Flag(steady => \A k \in st.kept : (due(k) /\ st.last[k] # -1 /\ ~shifted(k)) => gap(k) <= bound, "b_key_not_readvertised_in_time")
+          \cup Flag(steady => \A k \in st.kept : (due(k) /\ st.last[k] # -1 /\ shifted(k)) => gap(k) <= bound, "b_key_readvertised_late_after_its_region_was_merged_into_a_new_one")
+          \* (also after an outage of connectivity or of delivery: what was missed is caught up within the ten minutes)
+          \cup Flag(steady => \A k \in st.kept : (due(k) /\ st.last[k] # -1) => gap(k) <= bound + st.c.interval, "b_key_not_readvertised_within_two_intervals")
           \* behind the buffered wrapper: a provide-once that is the latest call for its key is carried out
-          \cup Flag((st.c.buffered /\ ~st.disturbed /\ st.online) =>
+          \cup Flag((st.c.buffered /\ ~st.outaged /\ ~st.restarted /\ st.online) =>
                       \A k \in 1..st.c.nkeys : (st.onceLast[k] # -1 /\ st.onceLast[k] + Grace <= Ev.ts) => st.last[k] >= st.onceLast[k],
                     "b_provide_once_behind_the_buffer_not_carried_out")])
 
-OpResult == Is("OpResult") /\ LET st == At(Ev.ts) IN Step(st)
+\* A call made while the provider reports itself offline: a provide-once is not carried out (the library's own
+\* tests pin this down), a start is kept and advertised at its regular slot once connectivity is back.
+OpResult == /\ Is("OpResult")
+            /\ LET st == At(Ev.ts)
+                   off == "state" \in DOMAIN Ev /\ Ev.state = "offline" IN
+               Step(IF ~off THEN st
+                    ELSE IF Ev.op = "once" THEN [st EXCEPT !.once = @ \ Range(Ev.keys),
+                                                          !.onceLast = [k \in 1..st.c.nkeys |-> IF k \in Range(Ev.keys) THEN -1 ELSE @[k]]]
+                    ELSE IF Ev.op = "start" THEN [st EXCEPT !.weak = @ \cup {k \in Range(Ev.keys) : st.last[k] < st.since[k]}]
+                    ELSE st)
 EndEv == Is("End") /\ Step(CloseBatch(s))
 Stuck == Is("Stuck") /\ Step([s EXCEPT !.viol = @ \cup {<<"C17", "x_wedged_or_crashed">>}])
 
-Next == Send \/ Route \/ GaveUp \/ FailSend \/ HealSend \/ SendFail \/ Start \/ Once \/ Stop \/ Swarm \/ Offline \/ Online \/ Restart \/ Settle \/ OpResult \/ EndEv \/ Stuck
+Next == Send \/ Route \/ GaveUp \/ Merged \/ FailSend \/ HealSend \/ SendFail \/ Start \/ Once \/ Stop \/ Swarm \/ Offline \/ Online \/ Restart \/ Settle \/ OpResult \/ EndEv \/ Stuck
 TraceSpec == Init /\ [][Next]_vars
 TraceAccepted == TLCGet("distinct") = NLines
 InvC17 == s.viol = {}
